@@ -17,3 +17,5 @@ def run(prog, rep):
     r_del.run_by_handle(prog, rep)
     from ..rules import r_order as _ro2
     _ro2.run_attr_search(prog, rep)
+    from ..rules import r_safe as _rsn
+    _rsn.run_namebuf(prog, rep)
